@@ -28,6 +28,29 @@ def s(t):
     return T.strip(t, sites=False, refs=True)
 
 
+def _only_sorts(prog, name):
+    """a local helper that does nothing to the slice it is given but sort it (sort_* of std on its first parameter):
+    reordering the clip output is what depth sorting is"""
+    b = prog.lookup(name)
+    if b is None:
+        return False
+    sl_ = T.Slicer(b)
+    touched = False
+    for _bi, t in b.calls():
+        for a in t["args"]:
+            at = T.strip(sl_.operand(a), sites=True, refs=True)
+            if T.contains(at, lambda q: q == ("param", 1)):
+                nm = t["callee"]["path"]
+                last = nm.rsplit("::", 1)[-1]
+                if last.startswith("sort"):
+                    touched = True
+                elif any(k in nm for k in ("Deref", "len", "iter", "as_mut", "as_ref", "is_empty")) or _only_sorts(prog, nm):
+                    continue
+                else:
+                    return False
+    return touched
+
+
 def check_config(rep, prog):
     cfg = prog.config
     rn = prog.body(RENDER)
@@ -90,89 +113,143 @@ def check_config(rep, prog):
             at = s(sl.operand(a))
             if at == clip_out and bi not in (cb,):
                 name = t["callee"]["path"]
-                if not any(k in name for k in ("render::depth_sort", "into_iter", "DerefMut::deref_mut", "Deref::deref")):
+                if not any(k in name for k in ("render::depth_sort", "into_iter", "DerefMut::deref_mut", "Deref::deref")) and not _only_sorts(prog, name):
                     rep.violate("C01.S1", "S1|clip-output-touched|%s" % name, rn.where(bi, None),
                                 "the clip output is passed to %s between clipping and rasterisation" % name, config=cfg)
 
-    # ---- S2 / S3 in the per-vertex closure (the closure passed to array::map whose result feeds tri_fill)
-    vclos = [q for q in T.walk(arg) if q[0] == "agg" and q[1].startswith("closure:")]
-    rep.floor("C01.S2.closure.%s" % cfg, len(vclos), 1, "per-vertex screen-space closure")
-    vc = prog.bodies[vclos[0][1][8:]]
-    vsl = T.Slicer(vc)
-    zd = [(bi, t) for bi, t in vc.calls(lambda c: c["path"].endswith("vary::ZDiv::z_div"))]
-    pos_field = ("field", ("param", 2), "ClipVert.pos")
+    # ---- S2 / S3 / S6: WHAT the per-vertex stage computes, by symbolic interpretation of whatever callable is mapped over the
+    # clipped triangle's vertices on the way to tri_fill (a closure, a closure calling a helper, a function pointer): on a symbolic
+    # clip vertex (x, y, z, w; attribute a) and a symbolic 4x4 viewport matrix M it must return
+    #   position = M . (x/w, y/w, 1/w, 1)  (rows 0..2)      attribute = a / w
+    # as identities of rational functions. The shape of the code is irrelevant.
+    from . import symalg as S, absint as A
+    map_calls = [q for q in T.walk(arg) if q[0] == "call" and q[1].split(" => ")[0].endswith("array::<impl [T; N]>::map")]
+    ok6 = bool(map_calls) and arg == map_calls[0]
+    rep.inst("C01.S6", "tri_fill receives vs.map(<per-vertex stage>) of the clipped triangle: %s" % ok6, config=cfg)
+    if not ok6:
+        rep.violate("C01.S6", "S6|fill-input", rn.where(fb, None), "tri_fill is not given the per-vertex stage's output for the clipped triangle's vertices", config=cfg)
+    else:
+        F = s(map_calls[0][2][1])
+        M = S.matrix("m", 4)
+        mcell = A.Frame(None)
+        mcell.locals[0] = M
+        mref = ("ref", mcell, 0, [])
+        fval = None
+        if F[0] == "agg" and F[1].startswith("closure:"):
+            ups = []
+            cbody = prog.bodies.get(F[1][8:])
+            byref = {i_: br for i_, (_n, br) in (T.Slicer(cbody).upvars().items() if cbody is not None else [])}
+            for ci_, cap in enumerate(F[2]):
+                ct_ = s(cap)
+                if T.contains(ct_, lambda q: q == ("param", 5)) or ct_ == ("param", 5):
+                    ups.append(mref if byref.get(ci_, True) else M)
+                else:
+                    ups.append(A.UNKNOWN)
+            fval = ("closure", F[1][8:], ups, {})
+        elif F[0] == "fnptr":
+            fval = ("fn", F[1].split(" => ")[-1], None)
+        if fval is None:
+            raise common.Infra("C01.S2: the per-vertex stage mapped over the clipped vertices is neither a closure nor a function (%s)" % T.show(F)[:80])
+        CV = "retrofire_core::render::clip::ClipVert"
+        VEC = "retrofire_core::math::vec::Vector"
+        cva = prog.adt(CV)
+        names = cva["variants"][0]["fields"]
+        vals = {"pos": ("adt", VEC, "Vector", [("array", [S.sym(c) for c in "xyzw"]), ("tuple", [])]), "outcode": A.UNKNOWN, "attrib": S.sym("a")}
+        cv = ("adt", CV, cva["variants"][0]["name"], [vals.get(n, A.UNKNOWN) for n in names])
+        it = S.interp(prog, models={"f32>::recip": S.m_recip})
+        try:
+            out = A.deref_all(it, it.invoke(fval, [cv], 0))
+            if not (isinstance(out, tuple) and out[0] == "adt" and out[1].endswith("geom::Vertex")):
+                raise A.Undecided("the stage returns %r" % (out,))
+            vnames = prog.adt(out[1])["variants"][0]["fields"]
+            pos = [S.to_ratio(c) for c in S.components(it, out[3][vnames.index("pos")])]
+            att = S.to_ratio(A.deref_all(it, out[3][vnames.index("attrib")]))
+        except (A.Undecided, A.Panic, S.NotPolynomial, KeyError, ValueError) as e:
+            raise common.Infra("C01.S2: the per-vertex stage could not be interpreted symbolically (%s)" % e)
+        from fractions import Fraction
+        one = {(): Fraction(1)}
+        W = {("w",): Fraction(1)}
+        ok_att = S.ratio_eq(att, ({("a",): Fraction(1)}, W))
+        ok_pos = len(pos) == 3
+        for r_ in range(3):
+            if not ok_pos:
+                break
+            num = {}
+            for c_, sy in enumerate(("x", "y", None, None)):
+                pass
+            # M[r] . (x/w, y/w, 1/w, 1) = (m_r0 x + m_r1 y + m_r2 + m_r3 w) / w
+            num = {("m%d0" % r_, "x"): Fraction(1), ("m%d1" % r_, "y"): Fraction(1), ("m%d2" % r_,): Fraction(1), ("m%d3" % r_, "w"): Fraction(1)}
+            num = {tuple(sorted(k_)): v_ for k_, v_ in num.items()}
+            ok_pos = ok_pos and S.ratio_eq(pos[r_], (num, W))
+        rep.inst("C01.S2", "per-vertex stage on a symbolic clip vertex: attribute = a / w: %s" % ok_att, config=cfg)
+        rep.inst("C01.S3", "per-vertex stage on a symbolic clip vertex: position = to_screen . (x/w, y/w, 1/w, 1): %s" % ok_pos, config=cfg)
+        if not ok_att:
+            rep.violate("C01.S2", "S2|paired-division", rn.where(fb, None),
+                        "the per-vertex stage does not divide the attribute by the w of the same clip-space position (attribute = %s / %s)" % (att[0], att[1]), config=cfg)
+        if not ok_pos:
+            rep.violate("C01.S3", "S3|viewport", rn.where(fb, None),
+                        "the per-vertex stage does not produce to_screen.apply((x/w, y/w, 1/w)) with render()'s own viewport matrix (got %s)" % ([(str(p_[0])[:80], str(p_[1])[:40]) for p_ in pos][:1],), config=cfg)
 
-    def comp(k):
-        return lambda q: q[0] in ("index", "cindex") and s(q)[1] == ("field", pos_field, "Vector.0") and (q[2] == ("const", "usize", k) if q[0] == "index" else q[2] == k)
-    divisors = []
-    kinds = {}
-    for bi, t in zd:
-        recv = s(vsl.operand(t["args"][0]))
-        dv = s(vsl.operand(t["args"][1]))
-        divisors.append(dv)
-        if recv[0] == "call" and recv[1].split(" => ")[0].endswith("vec::vec3"):
-            a0, a1, a2 = [s(x) for x in recv[2]]
-            okp = comp(0)(a0) and comp(1)(a1) and a2 == ("const", "f32", 1.0)
-            kinds["pos"] = (bi, okp, recv)
-        elif recv[0] == "field" and recv[2] == "ClipVert.attrib" and recv[1] == ("param", 2):
-            kinds["attrib"] = (bi, True, recv)
-    same_div = len(divisors) >= 2 and all(d == divisors[0] for d in divisors) and comp(3)(divisors[0])
-    ok2 = "pos" in kinds and "attrib" in kinds and kinds["pos"][1] and same_div
-    rep.inst("C01.S2", "position vec3(x, y, 1.0) and attribute are both z_div'ed by w (component 3 of the same clip position): pos=%s attrib=%s same divisor=%s"
-             % (kinds.get("pos", (0, False))[1], "attrib" in kinds, same_div), config=cfg)
-    if not ok2:
-        rep.violate("C01.S2", "S2|paired-division", vc.where(), "position and attribute are not divided by the same w of the clip-space position "
-                    "(pos ok=%s, attribute divided=%s, same divisor w=%s)" % (kinds.get("pos", (0, False))[1], "attrib" in kinds, same_div), config=cfg)
-    # S3
-    ap = [(bi, t) for bi, t in vc.calls(lambda c: "mat::Matrix" in c["path"] and c["path"].endswith("::apply"))]
-    ok3 = False
-    if len(ap) == 1 and "pos" in kinds:
-        bi, t = ap[0]
-        m = s(vsl.operand(t["args"][0]))
-        v = s(vsl.operand(t["args"][1]))
-        caps = capture_terms(prog, vc)
-        is_ts = m == ("upvar", "to_screen") and any(s(c) == ("param", 5) for c in caps.values())
-        divided = v[0] == "call" and v[1].split(" => ")[0].endswith("ZDiv::z_div") and v[3] == (vc.path, kinds["pos"][0])
-        ret = s(vsl.local(0))
-        pos_out = ret[0] == "agg" and ret[1].endswith("Vertex::Vertex") and T.contains(ret[2][0], lambda q: q[0] == "call" and q[1].endswith("::apply") and q[3] == (vc.path, bi))
-        att_out = ret[0] == "agg" and "attrib" in kinds and ret[2][1][0] == "call" and ret[2][1][3] == (vc.path, kinds["attrib"][0])
-        ok3 = is_ts and divided and pos_out and att_out
-    rep.inst("C01.S3", "the divided position (only) is mapped by render()'s to_screen parameter; result vertex = (to_screen(pos/w), attrib/w): %s" % ok3, config=cfg)
-    if not ok3:
-        rep.violate("C01.S3", "S3|viewport", vc.where(), "the per-vertex closure does not produce Vertex{to_screen.apply(pos/w), attrib/w}", config=cfg)
-
-    # ---- S4
+    # ---- S4: what Scanline::fragments yields, by symbolic interpretation: Frag{pos, var / pos.z} for every item of self.vs
     fr = prog.body("retrofire_core::render::raster::Scanline::<V>::fragments")
-    fcl = prog.children(fr.path)
-    ok4 = False
-    if len(fcl) == 1:
-        c = fcl[0]
-        csl = T.Slicer(c)
-        ret = s(csl.local(0))
-        if ret[0] == "agg" and ret[1].endswith("raster::Frag::Frag"):
-            names = None
-            for _b, _s, st in c.stmts():
-                if st["k"] == "Assign" and st["rv"]["k"] == "Aggregate" and st["rv"].get("adt", "").endswith("raster::Frag"):
-                    names = st["rv"]["fields"]
-            if names:
-                pos_t = ret[2][names.index("pos")]
-                var_t = ret[2][names.index("var")]
-                item = ("param", 2)
-                ok_pos = pos_t == ("field", item, "0")
-                ok_var = var_t[0] == "call" and var_t[1].split(" => ")[0].endswith("ZDiv::z_div") and s(var_t[2][0]) == ("field", item, "1") \
-                    and s(var_t[2][1])[0] == "call" and s(var_t[2][1])[1].split(" => ")[0].endswith("::z") and s(s(var_t[2][1])[2][0]) == ("field", item, "0")
-                ok4 = ok_pos and ok_var
-    fsl = T.Slicer(fr)
-    rt = s(fsl.local(0))
-    over_vs = T.contains(rt, lambda q: q[0] == "field" and q[2] == "Scanline.vs")
-    rep.inst("C01.S4", "fragments() maps every (pos, var) of self.vs to Frag{pos, var.z_div(pos.z())}: %s (iterates Scanline.vs: %s)" % (ok4, over_vs), config=cfg)
-    if not (ok4 and over_vs):
+    PT = "retrofire_core::math::point::Point"
+    SLN = "retrofire_core::render::raster::Scanline"
+    sla = prog.adt(SLN)
+    items = [("tuple", [("adt", PT, "Point", [("array", [S.sym("px%d" % k), S.sym("py%d" % k), S.sym("pz%d" % k)]), ("tuple", [])]), S.sym("v%d" % k)]) for k in range(2)]
+    slv = {"y": 0, "xs": A.UNKNOWN, "vs": ("iter", S.ListIt(items))}
+    line = ("adt", SLN, sla["variants"][0]["name"], [slv.get(n, A.UNKNOWN) for n in sla["variants"][0]["fields"]])
+    from fractions import Fraction
+    fnames = prog.adt("retrofire_core::render::raster::Frag")["variants"][0]["fields"]
+
+    def run_frags(orc):
+        cell = A.Frame(None)
+        cell.locals[0] = A.copy_val(line)
+        cell.locals[0][3][sla["variants"][0]["fields"].index("vs")] = ("iter", S.ListIt([A.copy_val(x) for x in items]))
+        it_ = S.interp(prog, oracle=orc)
+        fr_it = it_.call_body(fr, [("ref", cell, 0, [])], env={"V": "f32"})
+        return it_, [A.deref_all(it_, x) for x in S._drain(S.as_iter(it_, fr_it), it_, 0)]
+    ok4 = True
+    try:
+        outs = S.explore(run_frags, max_paths=64)
+        for trace, (it, frs) in outs:
+            okp = len(frs) == 2
+            for k, f in enumerate(frs):
+                if not okp:
+                    break
+                ppos = S.components(it, f[3][fnames.index("pos")])
+                var = S.to_ratio(A.deref_all(it, f[3][fnames.index("var")]))
+                okp = [S.to_poly(c) for c in ppos] == [{("p%s%d" % (c, k),): Fraction(1)} for c in "xyz"] \
+                    and S.ratio_eq(var, ({("v%d" % k,): Fraction(1)}, {("pz%d" % k,): Fraction(1)}))
+            if okp:
+                continue
+            # a path with another formula: does a fragment with a positive reciprocal depth follow it?
+            feasible = False
+            import itertools
+            for zs in itertools.product((1e-6, 1e-4, 0.01, 0.5, 1.0, 100.0), repeat=2):
+                pt = {}
+                for k in range(2):
+                    pt.update({"px%d" % k: 3.5 + k, "py%d" % k: 2.5, "pz%d" % k: zs[k], "v%d" % k: 0.7})
+                try:
+                    if S.trace_holds(trace, pt):
+                        feasible = True
+                        break
+                except S.NotNumeric:
+                    break
+            if feasible or not trace:
+                ok4 = False
+            else:
+                raise common.Infra("C01.S4: Scanline::fragments has a path [%s] with another formula that no sample depth follows; rule needs re-confirmation" % S.fmt_trace(trace)[:160])
+    except (A.Undecided, A.Panic, S.NotPolynomial, KeyError, ValueError, IndexError) as e:
+        raise common.Infra("C01.S4: Scanline::fragments could not be interpreted symbolically (%s)" % e)
+    rep.inst("C01.S4", "fragments() yields Frag{pos, var / pos.z} for every (pos, var) of self.vs, in order: %s" % ok4, config=cfg)
+    if not ok4:
         rep.violate("C01.S4", "S4|fragments", fr.where(), "Scanline::fragments does not divide every varying by the interpolated 1/w (pos.z) of the same fragment", config=cfg)
     for path in (FB_RASTERIZE, BUF_RASTERIZE):
         fam = prog.family(path)
-        uses_frag = any(True for b in fam for _b, _t in b.calls(lambda c: c["path"].endswith("Scanline::<V>::fragments")))
+        fam_i = [prog.inlined(b, depth=2, pred=lambda cb: not cb.is_pub) for b in fam]
+        uses_frag = any(True for b in fam_i for _b, _t in b.calls(lambda c: c["path"].endswith("Scanline::<V>::fragments")))
         raw_vs = False
-        for b in fam:
+        for b in fam_i:
             bsl = T.Slicer(b)
             for _bi, t in b.calls():
                 for a in t["args"]:
@@ -182,13 +259,6 @@ def check_config(rep, prog):
         rep.inst("C01.S4", "%s obtains fragments via Scanline::fragments(): %s, touches Scanline.vs directly: %s" % (path.split("<")[1].split(" as")[0], uses_frag, raw_vs), config=cfg)
         if not uses_frag or raw_vs:
             rep.violate("C01.S4", "S4|target|%s" % path, fam[0].where(), "a Target impl bypasses Scanline::fragments() (perspective correction would be skipped)", config=cfg)
-
-    # ---- S6 tri_fill gets the closure's output
-    map_calls = [q for q in T.walk(arg) if q[0] == "call" and q[1].split(" => ")[0].endswith("array::<impl [T; N]>::map")]
-    ok6 = bool(map_calls) and arg == map_calls[0]
-    rep.inst("C01.S6", "tri_fill receives vs.map(<per-vertex closure>) of the clipped triangle: %s" % ok6, config=cfg)
-    if not ok6:
-        rep.violate("C01.S6", "S6|fill-input", rn.where(fb, None), "tri_fill is not given the screen-space vertices produced by the per-vertex closure", config=cfg)
 
     # ---- S5 front doors
     for path, fields in (("retrofire_core::render::batch::Batch::<Vtx, Uni, Shd, Tgt, Ctx>::render",
